@@ -167,11 +167,13 @@ void j_double(double d) {
 
 /* ------------------------------------------------------------------ */
 static int fn_first;
+static int fn_gw_done;
+void gw_snapshot(void); void gw_diff_emit(void);
 /* an fn event is assembled in memory and written at fn_end, so that allocator events raised by the
    call itself (temporaries) are not interleaved with the line */
 static char *fn_buf; static size_t fn_len;
 void fn_begin(const char *f) {
-  tr_real = tr; fn_buf = NULL; fn_len = 0; tr = open_memstream(&fn_buf, &fn_len);
+  tr_real = tr; fn_buf = NULL; fn_len = 0; tr = open_memstream(&fn_buf, &fn_len); fn_gw_done = 0;
   fprintf(tr, "{\"e\":\"fn\",\"f\":\"%s\",\"i\":{", f); fn_first = 1; snprintf(last_begin, sizeof last_begin, "fn %s", f); }
 static void fn_key(const char *k) { if (!fn_first) fputc(',', tr); fn_first = 0; fprintf(tr, "\"%s\":", k); }
 void fn_in_limbs(const char *k, const mp_limb_t *p, mp_size_t n) { fn_key(k); j_hex_limbs(p, n); }
@@ -181,8 +183,8 @@ void fn_in_str(const char *k, const char *s) { fn_key(k); j_str(s); }
 void fn_in_raw(const char *k, const char *json) { fn_key(k); fputs(json, tr); }
 /* inputs done: from here until fn_out_* the real trace receives the allocator events of the call */
 static FILE *fn_mem;
-void fn_mid(void) { fputs("},\"o\":{", tr); fn_first = 1; fn_mem = tr; tr = tr_real; }
-static void fn_resume(void) { if (tr == tr_real && fn_mem) { tr = fn_mem; } }
+void fn_mid(void) { fputs("},\"o\":{", tr); fn_first = 1; fn_mem = tr; tr = tr_real; gw_snapshot(); }
+static void fn_resume(void) { if (tr == tr_real && fn_mem) { if (!fn_gw_done) { gw_diff_emit(); fn_gw_done = 1; } tr = fn_mem; } }
 void fn_out_limbs(const char *k, const mp_limb_t *p, mp_size_t n) { fn_resume(); fn_key(k); j_hex_limbs(p, n); }
 void fn_out_int(const char *k, long v) { fn_resume(); fn_key(k); fprintf(tr, "%ld", v); }
 void fn_out_u64(const char *k, uint64_t v) { fn_resume(); fn_key(k); j_hex_u64(v); }
@@ -300,10 +302,11 @@ int do_call(const api_fn *f, arg_t *a, ret_t *r) {
   fprintf(tr, "{\"e\":\"begin\",\"f\":\"%s\",", f->name); emit_args(f, a); fputs("}\n", tr); n_events++;
   snprintf(last_begin, sizeof last_begin, "%s", f->name);
   memset(r, 0, sizeof *r); r->kind = f->rkind;
+  gw_snapshot();
   rec_jmp_armed = 1;
   sig = sigsetjmp(rec_jmp, 1);
   if (sig == 0) { f->glue(a, r); rec_jmp_armed = 0; }
-  canary_sweep();
+  canary_sweep(); gw_diff_emit();
   fprintf(tr, "{\"e\":\"end\",\"f\":\"%s\",", f->name); emit_args(f, a);
   fputs(",\"x\":", tr); j_hex_s64(sig ? 0 : r->s);
   if (sig) fprintf(tr, ",\"sig\":\"FPE\",\"ret\":0");
@@ -349,3 +352,23 @@ void rec_free_str(char *s) {
 void rec_note(const char *fmt, ...) { va_list ap; va_start(ap, fmt); vfprintf(stderr, fmt, ap); va_end(ap); }
 
 size_t rec_block_size(void *p) { blk *b = p ? blk_find(p, 0) : NULL; return b ? b->sz : 0; }
+
+/* ------------------------------------------------------------------ */
+/* global-write detector: every writable chunk the library contributes to this (non-PIE, static) executable is
+   snapshotted before a call and compared after it; a changed chunk is a "gw" event (C15: only the documented globals). */
+typedef struct { unsigned char *addr; size_t size; char name[96]; unsigned char *snap; } gwchunk;
+static gwchunk *gwc; static int ngw;
+void gw_load(const char *exe) {
+  char path[600], line[400]; FILE *f;
+  snprintf(path, sizeof path, "%s.gw", exe); f = fopen(path, "r"); if (!f) return;
+  while (fgets(line, sizeof line, f)) { unsigned long a; long sz; char nm[200];
+    if (sscanf(line, "%lx %ld %199s", &a, &sz, nm) != 3) continue;
+    gwc = realloc(gwc, (ngw + 1) * sizeof *gwc); gwc[ngw].addr = (unsigned char *)a; gwc[ngw].size = sz; snprintf(gwc[ngw].name, sizeof gwc[ngw].name, "%s", nm); gwc[ngw].snap = malloc(sz); ngw++; }
+  fclose(f);
+}
+void gw_snapshot(void) { int i; for (i = 0; i < ngw; i++) memcpy(gwc[i].snap, gwc[i].addr, gwc[i].size); }
+void gw_diff_emit(void) {
+  int i; for (i = 0; i < ngw; i++) if (memcmp(gwc[i].snap, gwc[i].addr, gwc[i].size)) {
+    FILE *o = (tr_real && tr != tr_real) ? tr_real : tr;
+    fprintf(o, "{\"e\":\"gw\",\"sym\":\"%s\"}\n", gwc[i].name); n_events++; }
+}
